@@ -247,7 +247,7 @@ pub fn for_each_case(
 }
 
 pub fn run(ctx: &Ctx, rep: &mut Report) {
-    let n = ctx.tier.pick(4, 700, 30_000);
+    let n = ctx.tier.pick(4, 700, 100_000);
     for_each_case(ctx, rep, n, &mut |rep, pats, kind, v, s, imp, ml, hay, sp| {
         check_one(rep, pats, kind, v, s, imp, ml, hay, sp)
     });
